@@ -352,24 +352,29 @@ def build_spec(sc):
             files[p] = f["text"].encode("utf-8")
         ops = []
         for j, c in enumerate(s["calls"]):
+            t, r = "t%d" % j, "r%d" % j
             if c.get("via_export"):
                 path = "/sim/w/s%d_c%d.export" % (i, j)
                 files[path] = cm.render_file({"tb": [c["sent"]], "codec": "export4",
                                               "layout": c["shuffle"], "enc": "utf-8"})
                 ops.append(["reader", "rd", "export", path, "utf-8", {"quiet": True}])
-                ops.append(["next", "rd", "t"])
+                ops.append(["next", "rd", t])
             else:
-                ops.append(["build", "t", c["sent"], c["shuffle"]])
+                ops.append(["build", t, c["sent"], c["shuffle"]])
             if c.get("written_before"):
-                ops += [["sio", "o"], ["write", c["written_before"], "t", "o", {}]]
+                ops += [["sio", "o"], ["write", c["written_before"], t, "o", {}]]
             if c["op"] == "delete_terminal":
-                ops.append(["call", "delete_terminal", "t", c["params"]["num"]])
+                ops.append(["call", "delete_terminal", t, c["params"]["num"]])
                 if c.get("then_filter"):
-                    ops.append(["trans", "t", "filter_by_length", c["then_filter"], "r2"])
+                    ops.append(["trans", t, "filter_by_length", c["then_filter"], "flt"])
             else:
-                ops.append(["trans", "t", c["op"], c["params"], "r"])
+                ops.append(["trans", t, c["op"], c["params"], r])
                 if c.get("then_filter"):
-                    ops.append(["trans", "r", "filter_by_length", c["then_filter"], "r2"])
+                    ops.append(["trans", r, "filter_by_length", c["then_filter"], "flt"])
+        # every result is looked at once more when the session is over: what a call returned
+        # is the caller's, later calls (the cache of a terminal file, say) must not reach it
+        for j, c in enumerate(s["calls"]):
+            ops.append(["dump", ("t%d" if c["op"] == "delete_terminal" else "r%d") % j])
         sessions.append({"id": "s%d" % i, "ops": ops, "on_error": "continue"})
     return {"files": files, "sessions": sessions, "schedule": sc.get("schedule", []),
             "io_seed": sc["io_seed"]}
@@ -616,6 +621,18 @@ def execute(sc, sim):
                 v["detail"]["call"] = s["calls"].index(c)
                 viols.append(v)
                 break
+        else:
+            later = [r for r in obs["sessions"].get("s%d" % i, []) if r["op"] == "dump"]
+            if len(later) == len(s["calls"]) and len(s["calls"]) >= 2:
+                for ci, (c, rec, dm) in enumerate(zip(s["calls"], recs, later)):
+                    if "exc" in rec or "exc" in dm or rec.get("ok") is None:
+                        continue
+                    first = rec["ok"]["tree"] if c["op"] == "delete_terminal" else rec["ok"]
+                    st.check("results_looked_at_again_at_session_end")
+                    if dm["ok"] != first:
+                        viols.append(cm.viol("C11/%s/result-changed-by-later-calls" % c["op"],
+                                             session=i, call=ci, of=len(s["calls"])))
+                        break
     shape = tuple(tuple((c["op"], psig(c["params"]),
                          (s["files"].get(c["params"].get("terminalfile")) or {}).get("kind"))
                         for c in s["calls"]) for s in sc["sessions"])
